@@ -379,8 +379,9 @@ class _SktimeForecaster(BaseForecaster):
                 f"{self.__class__.__name__} will be refit each time "
                 f"`update` is called."
             )
-            # refit with updated data, not only passed data
-            self.fit(self._y, self._X, self.fh)
+            # refit with updated data, not only passed data; the horizon may not
+            # have been set yet if it is only passed to `predict`
+            self.fit(self._y, self._X, self._fh)
         return self
 
     def update_predict(
